@@ -439,11 +439,11 @@ def run_impl(exe, ir, dst_name, hists, timeout=600):
     return res
 
 
-def run_model(ir, dst_name, hists, stores=False, hyps=False):
+def run_model(ir, dst_name, hists, stores=False, hyps=False, hyps2=False):
     lines = [json.dumps(ir)]
     for h in hists:
         lines.append(json.dumps({'op': 'hist', 'dst': dst_name, 'buf': h['buf'], 'plat': h['plat'],
-                                 'calls': h['calls'], 'stores': stores, 'hyps': hyps}))
+                                 'calls': h['calls'], 'stores': stores, 'hyps': hyps, 'hyps2': hyps2}))
     out = common.drv_run(lines)
     assert out[0] == 'ok', out[0]
     return [json.loads(x) for x in out[1:]]
